@@ -17,7 +17,9 @@
 (*        listen]}  - the first alive one is the reference destination     *)
 (*  call {t, op: report|flush|close, cid, tn, name, kind, v, tags}         *)
 (*  ret  {t, op, cid, err, alive}                                          *)
-(*  emit {dest, len, ok, common_ok, mets:[{cid, name, kind, v, tags, ts}]} *)
+(*  emit {dest, len, ok, common_ok, alone_ok, mets:[{cid, name, kind, v,   *)
+(*        tags, ts}]}  alone_ok: envelope + the largest metric of the      *)
+(*        datagram alone is within max_packet                              *)
 (*  emitted {n}   sender side: a batch was handed to the transport         *)
 (*  panic {t, msg} | deadlock {where} | end {pending, qlen, done} | endx   *)
 (***************************************************************************)
@@ -91,7 +93,7 @@ TNext ==
                             ELSE lastTn
                /\ lateEnq' = lateEnq \cup {cids[i] : i \in {j \in known : C(j).late}}
                /\ IF ~r.ok THEN Fail("OneMessagePerDatagram")
-                  ELSE IF r.len > cfgv.max_packet THEN Fail("DatagramWithinLimit")
+                  ELSE IF r.len > cfgv.max_packet /\ r.alone_ok THEN Fail("DatagramWithinLimit")   \* C12: "provided each single metric fits on its own"
                   ELSE IF ~r.common_ok THEN Fail("CommonTagsEverywhere")
                   ELSE IF known # 1..n THEN Fail("Intact:metric-nobody-reported")
                   ELSE IF \E i \in known : C(i).kind # r.mets[i].kind THEN Fail("Intact:kind")
